@@ -53,6 +53,7 @@ type FuncContract struct {
 	Pure     bool
 	Inline   bool
 	NoHavoc  bool // "frame none": call does not modify the heap (but result is not a function of args)
+	PreservesArgs bool // "preserves-args": the callee does not write through pointers reachable from its arguments
 	Clauses  []*Clause
 	File     string
 	Line     int
@@ -318,6 +319,9 @@ func (cs *Contracts) parseLines(lines []string, lineNos []int, file, pkgPath str
 			case l == "frame none":
 				cur.NoHavoc = true
 				continue
+			case l == "preserves-args":
+				cur.PreservesArgs = true
+				continue
 			case strings.HasPrefix(l, "requires "):
 				c.Kind, rest = "requires", l[len("requires "):]
 			case strings.HasPrefix(l, "ensures "):
@@ -516,6 +520,20 @@ func substLets(e *Ex, lets map[string]*Ex) *Ex {
 			return r
 		}
 		return e
+	}
+	if e.Op == "call" && strings.Contains(e.Name, ".") {
+		segs := strings.Split(e.Name, ".")
+		if r, ok := lets[segs[0]]; ok {
+			recv := r
+			for _, sname := range segs[1 : len(segs)-1] {
+				recv = &Ex{Op: "sel", Name: sname, Args: []*Ex{recv}, Pos: e.Pos}
+			}
+			m := &Ex{Op: "mcall", Name: segs[len(segs)-1], Args: []*Ex{recv}, Pos: e.Pos}
+			for _, a := range e.Args {
+				m.Args = append(m.Args, substLets(a, lets))
+			}
+			return m
+		}
 	}
 	n := *e
 	n.Args = make([]*Ex, len(e.Args))
